@@ -256,6 +256,7 @@ def eval_tree(ctx, case):
         return Verdict.violated("mockery crashed", dict(obs, **r.brief()))
     # model
     exp = Counter()
+    undecided = set()
     configured = set(case["pkcfg"])
     rec_roots = [p for p, c in case["pkcfg"].items() if c.get("recursive")]
     for path, names in ifaces.items():
@@ -269,7 +270,15 @@ def eval_tree(ctx, case):
             owner = max(anc, key=len)  # nearest configured recursive ancestor
             eff = cfgmodel.resolve([case["pkcfg"][owner], root_cfg])
             full = MOD + "/" + path
-            if any(cfgmodel.go_regex_search(rx, full) for rx in eff["exclude-subpkg-regex"]):
+
+            def excluded_by(a):
+                ea = cfgmodel.resolve([case["pkcfg"][a], root_cfg])
+                return any(cfgmodel.go_regex_search(rx, full) for rx in ea["exclude-subpkg-regex"])
+            if excluded_by(owner):
+                if any(not excluded_by(a) for a in anc if a != owner):
+                    # excluded by the nearest recursive ancestor but not by a farther one: the statement does not
+                    # decide whether (and with whose settings) it is added -> bystander package, not asserted
+                    undecided.add(MOD + "/" + path)
                 continue
         for nm in names:
             if cfgmodel.selected(eff, {}, nm):
@@ -294,8 +303,11 @@ def eval_tree(ctx, case):
     got = Counter()
     for f in probe.parse_tree(root):
         for i in f["ifaces"]:
+            if f["file"]["srcpkg"] in undecided:
+                continue
             got[(f["file"]["srcpkg"], i["name"], i["struct"])] += 1
-    obs.update({"expected_mocks": sum(exp.values()), "observed_mocks": sum(got.values()), "dirs": len(case["dirs"]), "recursive_roots": sorted(rec_roots)})
+    obs.update({"expected_mocks": sum(exp.values()), "observed_mocks": sum(got.values()), "dirs": len(case["dirs"]), "recursive_roots": sorted(rec_roots),
+                "undecided_packages": sorted(undecided)})
     if got != exp:
         return Verdict.violated("recursive selection/inheritance differs from the model: missing %s, unexpected %s" %
                                 (sorted((exp - got).elements())[:8], sorted((got - exp).elements())[:8]),
